@@ -440,3 +440,22 @@ CHECKS['C17'].update({
     'note': TB + "drive / UNC prefix clauses, REALPATH under Windows rules and fnmatch-mode patterns with both brackets and '/' are searched, not "
             "proved (for `[/]`-type classes the clause is false in fnmatch mode: witnessed); case folding is ASCII.",
 })
+
+_c02 = CHECKS['C02']['text']
+CHECKS['C02'].update({
+    'text': _c02.replace("Segment level: compSeg_start_sem", "C02neg_globfree / C02neg_glob — the same equalities with one top-level `!(...)` per segment followed by literal text "
+            "(C01's scope inside a segment; look-ahead closed by `(?:$|[/])`, hypotheses D3p / D1p / solidity each with a counterexample); C02_matchbase — under "
+            "MATCHBASE a slash-less pattern accepts exactly the paths whose LAST piece is in the pattern's language (compPathMB, D6 excluded with its witness). "
+            "Segment level: compSeg_start_sem"),
+    'note': CHECKS['C02']['note'].replace("PARTIAL: `!(...)` inside path segments and MATCHBASE are compiled by compPath and tied by K1' but excluded from the theorems (negFree); ",
+            "PARTIAL: for `!(...)` segments and MATCHBASE the link faithful port <-> tidy compiler is tested (decide+kernel on pattern lists, K1'-path), not proved; nested / "
+            "multiple negations and negation followed by a wildcard are outside the scope; "),
+})
+_c09 = CHECKS['C09']['text']
+CHECKS['C09'].update({
+    'text': _c09.replace("Tie: K3 for escape / is_magic", "END TO END through the list layer (C09_escape_fn_api, C09_escape_glob_api, _nodir, _real): for every string, "
+            "every user flag word (Unix rules) and every limit, the models of fnmatch.fnmatch / glob.globmatch on escape(s) reduce to the single-pattern statement — the "
+            "RAWCHARS normaliser leaves escape(s) unchanged (norm_escape, all configurations), the `|` splitter does not split it (wcSplit_escape), it is never read as a "
+            "NEGATE / MINUSNEGATE exclusion nor as a tilde pattern (isNegative_escape, tildePos_escape); the only hypothesis is bracex's keep_escapes contract "
+            "(expand(escape s) = [escape s]). Tie: K3 for escape / is_magic"),
+})
